@@ -399,11 +399,8 @@ def vpl_expressible(e):
     if k in ("cmp", "log"):
         return vpl_expressible(e[2]) and vpl_expressible(e[3])
     if k == "not":
-        # crates/varpulis-parser: `"not"? ~ comparison_expr` produces no token for the keyword and
-        # parse_not_expr / parse_filter_not_expr test `first.as_str() == "not"`, so the parser drops
-        # every `not` (in `.where(..)` and in `-> B where ..` alike). Text programs therefore cannot
-        # carry a negation at all; negations are exercised through the evaluator APIs only.
-        return False
+        # the grammar allows `not` only in front of a comparison / parenthesised expression; e_vpl parenthesises
+        return vpl_expressible(e[1])
     if k == "neg":
         # the parser folds `-<literal>`; only produced through text for literals
         return False
@@ -445,6 +442,17 @@ def g_event(fields):
 
 def ev_json(fields, ty="B", extra=()):
     return {"type": ty, "fields": [["f%d" % k, v] for k, v in fields] + [list(x) for x in extra]}
+
+
+def has_not(e):
+    k = e[0]
+    if k == "not":
+        return True
+    if k in ("cmp", "log"):
+        return has_not(e[2]) or has_not(e[3])
+    if k == "neg":
+        return has_not(e[1])
+    return False
 
 
 def e_size(e):
